@@ -26,6 +26,11 @@ mod sx;
 
 fn main() {
     let args: Vec<String> = std::env::args().collect();
+    if args.len() >= 5 && args[1] == "C19-child-fsize" {
+        std::panic::set_hook(Box::new(|_| {}));
+        c19::child_fsize(&args[2..]);
+        return;
+    }
     if args.len() >= 5 && args[1] == "C19-child" {
         std::panic::set_hook(Box::new(|_| {}));
         c19::child(&args[2..]);
